@@ -5,7 +5,7 @@ CONSTANTS
   KinSet = {1}
   MaxEm = 14
   MaxCall = 4
-  Kinds = {"opt", "eval", "seq", "nested"}
+  Kinds = {"opt", "eval", "seq", "nested", "renest"}
   Emit = TRUE
 SPECIFICATION MCSpec
 INVARIANT WellBracketed
